@@ -1,5 +1,6 @@
 import Cd.Basic
 import Cd.Couples
+import Cd.Devs
 
 /-! # C17 — property theorems (statements only; proofs live in the family libraries) -/
 
@@ -23,6 +24,17 @@ open CdC
 theorem couples_decode_encode :
     ∀ (m : List Row), decode (encode m) = m :=
   @CdC.decode_encode
+end
+
+section
+open CdD
+
+/-- the developers message: when every counter and key fits 32 bits (the width of the format) and developer keys are
+real indexes or the unmatched author, reading back what was written gives the same ticks, developers (the unmatched
+author goes through -1 and comes back), commits, line statistics and per-language statistics -/
+theorem devs_decode_encode :
+    ∀ (am : Int) (t : Ticks) (h : Fits am t), decode am (encode am t) = t :=
+  @CdD.decode_encode
 end
 
 end Props.C17
